@@ -4,8 +4,14 @@
   on: every group / scalar occupies exactly its declared number of octets, scalars are written as
   the emitted `put_uint` writes them, and `size` (the length of the reference encoding) is
   additive over a field list.
+
+  The parser the Python back end emits is modelled in `Pdlv.Py` (static runs behind one length check,
+  `parse_all` on static slices, unguarded payload size modifier, …) and compared with the emitted parser
+  on every input of every run; `python_parser_agrees_with_reference` relates the model to the reference
+  decoder for every input, and the recorded deviations of python.rs are exhibited as theorems about it.
 -/
 import Pdlv.Thm.C03
+import Pdlv.Lemmas.PyAgree
 
 namespace Pdlv
 namespace Ref
@@ -62,4 +68,51 @@ theorem encItem_optional_absent (e : Endian) (arrs : List ArrInfo) (p : Bytes) (
 example : encTy .big (.scalar 24) (.int 0x010203) = some [1, 2, 3] := by rfl
 
 end Ref
+end Pdlv
+
+namespace Pdlv
+namespace Py
+
+/-- **C13, parser side** (see `Py.parse_all_agrees_with_reference`): on the class `Py.wfBody` the model of the
+    emitted `parse_all` accepts exactly the inputs the reference `decode_full` accepts, with the same value -/
+theorem python_parser_agrees_with_reference (c : Cfg) (nm : String) (items : Items)
+    (hw : wfBody (.root nm items) = true) (bs : Bytes) (v : Value) :
+    Py.decodeFull c (.root nm items) bs = .ok v ↔
+      Pdlv.decodeFull { e := c.e, mode := .ideal } (.root nm items) bs = .ok v :=
+  parse_all_agrees_with_reference c nm items hw bs v
+
+/-- deviation 1 (KF-C13-py-reserved8): `packet P { _size_(x): 8, x: 8[], _reserved_: 8 }` — the emitted parser
+    accepts `00` (the reserved octet is missing), the reference rejects it; the layout is outside `wfBody` -/
+theorem reserved_octet_unchecked :
+    let items : Items := .cons (.chunk [.size "x" 8 0]) (.cons (.array "x" (.scalar 8) (.static 1) .sizeField none)
+      (.cons (.chunk [.reserved 8]) .nil))
+    (Py.decodeFull { e := .little } (.root "P" items) [0]).isOk = true ∧
+    (Pdlv.decodeFull { e := .little, mode := .ideal } (.root "P" items) [0]).isOk = false ∧
+    wfBody (.root "P" items) = false := by
+  refine ⟨by rfl, by rfl, by rfl⟩
+
+/-- deviation 2 (KF-C13-py-payload-modifier): `packet P { _size_(_payload_): 8, _payload_: [+3], t: 8 }` — a size
+    below the modifier slices from the end: `02 aa bb` is accepted, the reference rejects it -/
+theorem payload_modifier_unguarded :
+    let items : Items := .cons (.chunk [.size "_payload_" 8 3]) (.cons (.payload (.sized 3)) (.cons (.chunk [.scalar "t" 8]) .nil))
+    (Py.decodeFull { e := .little } (.root "P" items) [2, 0xaa, 0xbb]).isOk = true ∧
+    (Pdlv.decodeFull { e := .little, mode := .ideal } (.root "P" items) [2, 0xaa, 0xbb]).isOk = false ∧
+    wfBody (.root "P" items) = false := by
+  refine ⟨by rfl, by rfl, by rfl⟩
+
+/-- (repaired by a `fix:` commit, mirrored in the model) `packet P { k: 8, _payload_, tag: 8[2], _padding_[4] }`: the octets
+    kept after an unsized payload now include the padding, so the reference encoding `01 aa 07 08 00 00` is accepted -/
+theorem payload_tail_counts_padding :
+    let items : Items := .cons (.chunk [.scalar "k" 8]) (.cons (.payload (.beforeStatic 4))
+      (.cons (.array "tag" (.scalar 8) (.static 1) (.static 2) (some 4)) .nil))
+    (Py.decodeFull { e := .little } (.root "P" items) [1, 0xaa, 7, 8, 0, 0]).isOk = true ∧
+    wfBody (.root "P" items) = true := by
+  refine ⟨by rfl, by rfl⟩
+
+/-- non-vacuity: `packet P { _count_(x): 8, x: 16[], s: S, _payload_ }` with `struct S { a: 8, b: 8 }` is in the class -/
+example : wfBody (.root "P" (.cons (.chunk [.count "x" 8]) (.cons (.array "x" (.scalar 16) (.static 2) .countField none)
+    (.cons (.typedef "s" (.struct "S" (.root "S" (.cons (.chunk [.scalar "a" 8, .scalar "b" 8]) .nil))) (some 2))
+    (.cons (.payload .last) .nil))))) = true := by decide
+
+end Py
 end Pdlv
